@@ -163,7 +163,7 @@ func fieldKey(fa *ssa.FieldAddr) string {
 	}
 	name := types.TypeString(t, func(*types.Package) string { return "" })
 	if st, ok := t.Underlying().(*types.Struct); ok && fa.Field < st.NumFields() {
-		return name + "." + st.Field(fa.Field).Name()
+		return name + "." + core.FieldName(st, fa.Field)
 	}
 	return name + fmt.Sprintf(".#%d", fa.Field)
 }
